@@ -33,7 +33,7 @@ META = {
 MODES = ["chainable", "lenient", "semistrict", "strict"]
 SITE_STREAMS = ("site", "fmt", "fmtv", "fmtc")
 MODEL_STREAMS = ("site", "fmt", "fmtv", "fmtc", "prog", "progv", "progc")
-NEEDED = ["C12_MODES", "C12_HANDLE_UNDEFINED", "C12_IS_TRUE", "C12_ASSERT_ITERABLE", "C12_ASSERT_VALUE_NOT_UNDEFINED",
+NEEDED = ["C12_ARG_TYPES", "C12_BUILTIN_SIGS", "C12_MODES", "C12_HANDLE_UNDEFINED", "C12_IS_TRUE", "C12_ASSERT_ITERABLE", "C12_ASSERT_VALUE_NOT_UNDEFINED",
           "C12_TRY_ITER", "C12_VM_EMIT", "C12_VM_SLICE", "C12_ENV_FORMAT", "C12_VM_SITES", "C12_BUILTIN_NAMES"]
 
 # the documented matrix per site class: which modes must fail with UndefinedError
@@ -149,6 +149,8 @@ def run(r):
         return
     lines = out.splitlines()
     cases = {}
+    sig_cases = {}
+    n_prog_lines = 0
     model_in = ["matrix"]
     sensitivity = collections.defaultdict(set)
     for line in lines:
@@ -174,8 +176,14 @@ def run(r):
         if b:
             sensitivity[b].add(sh)
         nfail = judge(r, stream, label, src, rs)
-        if prog != "-":
+        if prog.startswith("B "):
+            b = prog.split(" ")
+            name = bytes.fromhex(b[2]).decode()
+            sig_cases[cid] = (b[1], name)
+            model_in.append("\t".join(["sig", cid, b[1], name] + b[3:]))
+        elif prog != "-":
             model_in.append(line)
+            n_prog_lines += 1
         if stream in ("site", "prog") and (len(r.samples) < 4 or (len(set(rs)) > 1 and len(r.samples) < 10 and stream == "prog")):
             r.sample({"stream": stream, "template": src[:300], "results": [dec(x)[:80] for x in rs]})
     r.extra["mode_sensitive_builtins"] = sorted(b for b, s in sensitivity.items() if any(len(set(x)) > 1 for x in s))
@@ -195,31 +203,85 @@ def run(r):
         r.broken.append(f"model driver printed {len(body)} result lines for {len(model_in) - 2} cases")
         return
     agree = 0
+    frag = collections.defaultdict(lambda: [0, 0, 0])    # stream -> [in fragment, executed and agreeing, total]
+    good_ok = {}                                          # builtin -> the valid call renders under all modes
+    for cid, (kind, name) in sig_cases.items():
+        stream, label, src, rs = cases[cid]
+        if label.endswith(":good") and all(x.startswith("ok:") for x in rs):
+            good_ok[kind + ":" + name] = True
+    sig_checked = collections.Counter()
     for m in body:
         f = m.split("\t")
         cid = f[0]
         stream, label, src, rs = cases[cid]
-        if len(f) != 5:
+        if cid in sig_cases:
+            # ---- the conversion layer predicted from the extracted signature vs. the engine
+            kind, name = sig_cases[cid]
+            if f[1:] == ["no-sig"]:
+                r.broken.append(f"no extracted signature for the registered builtin {kind} `{name}`")
+                continue
+            conv, purity = f[1:5], f[5]
+            body_modes = [i for i in range(4) if conv[i] == "body"]
+            case = f"{stream}\t{src}"
+            single = label.split(":")[-1]
+            if stream == "call" and good_ok.get(kind + ":" + name) and len(label.split(":")) == 3 and "=" in single \
+                    and "," not in single and "+" not in single and not single.startswith("extra"):
+                # (i) one argument of a valid call replaced: a predicted conversion error is the engine's error
+                for i in range(4):
+                    if conv[i] == "conv-err" and rs[i] != "err:UndefinedError":
+                        r.model_disagreement(case, [dec(x) for x in rs], ["signature: " + c for c in conv])
+                        break
+                sig_checked["conversion error predicted from the signature (single substitution)"] += 1
+            if purity == "pure" and len(body_modes) > 1:
+                # (ii) a body that never reaches the mode: the modes that pass the conversion agree, up to the
+                # Emit of an undefined result (ok under chainable/lenient, UndefinedError under semistrict/strict)
+                sub = [rs[i] for i in body_modes]
+                ok_shape = len(set(sub)) == 1
+                if not ok_shape and kind != "test":
+                    len_ = [rs[i] for i in body_modes if i < 2]
+                    strict_ = [rs[i] for i in body_modes if i >= 2]
+                    ok_shape = (len(set(len_)) == 1 and len_ and len_[0].startswith("ok:")
+                                and all(x == "err:UndefinedError" for x in strict_))
+                if not ok_shape:
+                    r.model_disagreement(case, [dec(x) for x in rs], ["signature: " + c for c in conv] + [purity])
+                sig_checked["pure body: modes passing the conversion agree"] += 1
+            continue
+        if len(f) != 6:
             if f[1:] == ["-"]:
                 continue
             r.broken.append(f"model driver could not parse the program of `{src[:80]}`: {f[1:]}")
             continue
-        ms = f[1:5]
+        ms, infrag = f[1:5], f[5] == "in-fragment"
+        frag[stream][2] += 1
+        if infrag:
+            frag[stream][0] += 1
         if any(x.startswith("model-error") for x in ms):
             r.broken.append(f"model reached an impossible state on `{src[:80]}`: {ms}")
             continue
         if any(x.startswith("unsupported:") for x in ms):
             what = next(x for x in ms if x.startswith("unsupported:"))
-            r.hist["model coverage"]["outside the model: " + what[12:].split("_")[0]] += 1
+            r.hist["model coverage"][("in the theorem fragment, not executable: " if infrag else "outside the fragment: ")
+                                     + "_".join(what[12:].split("_")[:2])] += 1
             continue
         if [cls(x) for x in ms] != [cls(x) for x in rs]:
             r.model_disagreement(f"{stream}\t{src}", [dec(x) for x in rs], [dec(x) for x in ms])
         else:
             agree += 1
-            r.hist["model coverage"]["modelled and agreeing: " + stream] += 1
+            frag[stream][1] += 1
+            r.hist["model coverage"]["executed and agreeing: " + stream] += 1
     r.extra["model_cases_agreeing"] = agree
+    r.extra["programs (stream: [accepted by inFragment = hypotheses of mono_programs established, executed by the model with "
+            "identical results, total])"] = {k: v for k, v in frag.items()}
+    r.extra["signature_predictions_checked"] = dict(sig_checked)
+    gen = [v for k, v in frag.items() if k.startswith("prog")]
+    tot = sum(v[2] for v in gen)
+    if tot:
+        r.extra["generated_programs_in_fragment_fraction"] = round(sum(v[0] for v in gen) / tot, 4)
+        r.extra["generated_programs_executed_fraction"] = round(sum(v[1] for v in gen) / tot, 4)
+        if sum(v[0] for v in gen) < 0.8 * tot:
+            r.broken.append(f"only {sum(v[0] for v in gen)} of {tot} generated programs are inside the model's fragment")
     if agree < 500:
-        r.broken.append(f"only {agree} programs were inside the Lean model's fragment (correspondence too thin)")
+        r.broken.append(f"only {agree} programs were executed by the Lean model (correspondence too thin)")
 
 
 def replay(r, path):
